@@ -290,6 +290,40 @@ def rule_R5(res, prog):
                                  "from %s: an algorithm the endpoint never offered (e.g. one listed only for certificates) is accepted in "
                                  "CertificateVerify" % (fn.relfile, ln, fn.name, pair[0], pair[1], sorted(written)), file=fn.relfile, line=ln)
                 res.instance(rid, "%s:%s findFromUint16Array(%s, %s, ..)" % (fn.name, ln, pair[0], pair[1]), ok, finding=f_)
+    # TLS 1.2 client CertificateVerify: the received algorithm is tested against ssl->hashSigAlg, the intersection of the
+    # client's list with what this server accepts - not against the client's own list
+    p12 = prog.fn("parseCertificateVerify")
+    masks = []
+    for b in p12.blocks:
+        t = b.get("term")
+        if t is None or "c" not in t:
+            continue
+        for m in walk(t["c"]):
+            if m.get("k") == "bin" and m["op"] == "&":
+                l_, r_ = strip(m["l"]), strip(m["r"])
+                for loc, other in ((l_, r_), (r_, l_)):
+                    while loc is not None and loc.get("k") == "cast":
+                        loc = strip(loc["e"])
+                    if loc is not None and loc.get("k") == "var" and loc.get("sc") == "l" and "SigAlg" in (loc.get("n") or "") and other is not None:
+                        masks.append((t["ln"], other))
+    for (ln, other) in masks:
+        o = other
+        while o is not None and o.get("k") == "cast":
+            o = strip(o["e"])
+        ok = o is not None and o.get("k") == "mem" and o.get("f") == "hashSigAlg"
+        f_ = None
+        if not ok:
+            f_ = Finding(PROP, rid, p12.name, "CertificateVerify algorithm tested against `%s`" % pp(other)[:40],
+                         "%s:%s parseCertificateVerify(): the client's signature algorithm is tested against `%s` instead of ssl->hashSigAlg "
+                         "(the client's list filtered by the server's own): an algorithm this server excluded (e.g. SHA-1) is accepted "
+                         "for the proof of possession" % (p12.relfile, ln, pp(other)[:60]), file=p12.relfile, line=ln)
+        res.instance(rid, "parseCertificateVerify:%s received algorithm & %s" % (ln, pp(other)[:40]), ok, finding=f_)
+    f_ = None
+    if not masks:
+        f_ = Finding(PROP, rid, p12.name, "CertificateVerify algorithm never checked",
+                     "%s:%s parseCertificateVerify() no longer tests the received signature algorithm against the accepted set" % (p12.relfile, p12.line),
+                     file=p12.relfile, line=p12.line)
+        res.instance(rid, "parseCertificateVerify tests the received algorithm", False, finding=f_)
     pv = prog.fn("tls13ParseCertificateVerify")
     has = any(c.get("fn") == "findFromUint16Array" for b, ln, c in pv.calls())
     f_ = None
